@@ -105,9 +105,11 @@ def _ops_big():
     for n in nums:
         ops.append(('empty', n))
     ops += [('del', 10, 10), ('del', 10, 20), ('del', None, 10), ('del', 20, None),
-            ('del', 2, 9), ('del', 0, 65529)]
+            ('del', 2, 9), ('del', 0, 65529),
+            # line number 0 given explicitly (falsy in Python: must not be read as 'omitted')
+            ('del', 0, 0), ('del', None, 0)]
     ops += [('renum', None, None, None), ('renum', 100, 20, 5), ('renum', 65520, 30, 5),
-            ('renum', 1, 10, 1)]
+            ('renum', 1, 10, 1), ('renum', 0, None, None), ('renum', 0, 0, 5)]
     ops += [('new',), ('merge', 'A1'), ('merge', 'A2'), ('load', 'A1'), ('load', 'T3'),
             ('merge', 'T3')]
     return ops
